@@ -38,6 +38,36 @@ def monitor(cat, b, out):
     return "unexpected harness output " + out
 
 
+def call_sites(ctx):
+    """the category each call site asks for: every byte as the reason code of a PUBACK, PUBREC and PUBCOMP through the real
+    publish_send_op (H-pubsend): admitted (operation goes on / completes with that code) iff the standard lists it for *that* packet"""
+    hb, hlog = build_harness("h_pubsend")
+    if hb is None:
+        ctx.ties_broken.append("harness:h_pubsend does not compile: " + hlog[-800:]); return False
+    lines = []; meta = []
+    for b in range(256):
+        lines += ["pbs new 1", "pbs sent ok", f"pbs reply ack {b} 0"]; meta.append(("puback", b, len(lines) - 1))
+        lines += ["pbs new 2", "pbs sent ok", f"pbs reply ack {b} 0"]; meta.append(("pubrec", b, len(lines) - 1))
+        lines += ["pbs new 2", "pbs sent ok", "pbs reply ack 0 0", "pbs sent ok", f"pbs reply ack {b} 0"]; meta.append(("pubcomp", b, len(lines) - 1))
+    impl, rc, err = run_lines(hb, lines)
+    if rc != 0 or len(impl) != len(lines):
+        ctx.ties_broken.append(f"harness:h_pubsend exited with {rc}: {err[-500:]}"); return False
+    bad = []
+    for cat, b, i in meta:
+        o = impl[i]
+        admitted = "disconnectMalformed" not in o
+        if admitted != (b in LISTED[cat]):
+            bad.append({"packet": cat, "code": b, "observed": o, "why": ("accepted although MQTT 5 does not list it for " if admitted else "rejected although MQTT 5 lists it for ") + cat.upper()})
+        elif admitted and f"completeOk {b} " not in o and not (cat == "pubrec" and b < 0x80 and "sendPubrel" in o):
+            bad.append({"packet": cat, "code": b, "observed": o, "why": "admitted code not passed on unchanged"})
+    ctx.count("call-site-cases", len(meta))
+    if bad:
+        ctx.violation("call-site", {"what": "publish_send_op admits reason codes of the wrong packet type (C20 at the call site)", "failures": bad[:30], "n_failures": len(bad),
+                                    "replay_hint": "pbs new <q> / pbs sent ok / pbs reply ack <code> 0 through .build/h/h_pubsend/*"})
+        return True
+    return False
+
+
 def run(ctx):
     standard_lean_phase(ctx)
     mdrv, mlog = build_mdrv()
@@ -90,6 +120,7 @@ def run(ctx):
                 if not found:
                     # disagreement but the monitor is satisfied: property still holds on every input (exhaustive) -> model is stale
                     ctx.notes.append("model/implementation disagree although the implementation satisfies the monitor on all 2304 inputs")
+    found = call_sites(ctx) or found
     if ctx.tier == "thorough" and not ctx.ties_broken:
         bad = leanchecker(ctx.lean.get("modules", []))
         for m, msg in bad:
